@@ -449,7 +449,9 @@ func c15Mixed(r *Rng, id string) Case {
 	mySchema := "CREATE TABLE authors (id bigint NOT NULL, name varchar(100) NOT NULL, created datetime NOT NULL, bio text);\n"
 	files := map[string]string{"pg.sql": pgSchema, "my.sql": mySchema,
 		"qpg.sql": "-- name: ListAuthors :many\nSELECT * FROM authors;\n\n-- name: GetName :one\nSELECT name FROM authors WHERE id = $1;\n",
-		"qmy.sql": "-- name: ListAuthors :many\nSELECT * FROM authors;\n\n-- name: GetName :one\nSELECT name FROM authors WHERE id = ?;\n"}
+		"qmy.sql": "-- name: ListAuthors :many\nSELECT * FROM authors;\n\n-- name: GetName :one\nSELECT name FROM authors WHERE id = ?;\n",
+		// a second query file in which only ONE of the package's overridden types surfaces
+		"qpg2.sql": "-- name: GetBio :one\nSELECT bio FROM authors WHERE id = $1;\n"}
 	globals := []string{
 		`{"db_type":"uuid","go_type":"github.com/google/uuid.UUID","engine":"postgresql"}`,
 		`{"db_type":"datetime","go_type":"github.com/lib/pq.NullTime","engine":"mysql"}`,
@@ -459,7 +461,8 @@ func c15Mixed(r *Rng, id string) Case {
 	}
 	globals = permuted(r, globals)
 	hasDoc := len(globals) == 3
-	pkgOv := `{"column":"authors.name","go_type":"math/big.Int"}`
+	// two overrides of package a share an import path and name different types
+	pkgOv := `{"column":"authors.name","go_type":"math/big.Int"},{"column":"authors.bio","go_type":"math/big.Float","nullable":true}`
 	type pk struct {
 		name, engine, ov string
 		want           map[string]string
@@ -469,7 +472,7 @@ func c15Mixed(r *Rng, id string) Case {
 		doc = "json.Number"
 	}
 	pks := []pk{
-		{"a", "postgresql", pkgOv, map[string]string{"Name": "big.Int", "Uid": "uuid.UUID", "Meta": doc}},
+		{"a", "postgresql", pkgOv, map[string]string{"Name": "big.Int", "Bio": "big.Float", "Uid": "uuid.UUID", "Meta": doc}},
 		{"m", "mysql", "", map[string]string{"Name": "string", "Created": "pq.NullTime"}},
 		{"c", "postgresql", "", map[string]string{"Name": "string", "Uid": "uuid.UUID", "Meta": doc}},
 	}
@@ -483,9 +486,9 @@ func c15Mixed(r *Rng, id string) Case {
 	var entries []string
 	for _, k := range order {
 		p := pks[k]
-		schema, q := "pg.sql", "qpg.sql"
+		schema, q := "pg.sql", `["qpg.sql","qpg2.sql"]`
 		if p.engine == "mysql" {
-			schema, q = "my.sql", "qmy.sql"
+			schema, q = "my.sql", `["qmy.sql"]`
 		}
 		ov := ""
 		if p.ov != "" {
@@ -495,9 +498,9 @@ func c15Mixed(r *Rng, id string) Case {
 			if pkgRename && p.name == "a" {
 				ov += `,"rename":{"name":"Label","author":"Writer","uid":"Key","created":"Born"}`
 			}
-			entries = append(entries, fmt.Sprintf(`{"engine":%q,"schema":%q,"queries":%q,"gen":{"go":{"package":%q,"out":%q%s}}}`, p.engine, schema, q, p.name, p.name, ov))
+			entries = append(entries, fmt.Sprintf(`{"engine":%q,"schema":%q,"queries":%s,"gen":{"go":{"package":%q,"out":%q%s}}}`, p.engine, schema, q, p.name, p.name, ov))
 		} else {
-			entries = append(entries, fmt.Sprintf(`{"name":%q,"path":%q,"engine":%q,"schema":%q,"queries":%q%s}`, p.name, p.name, p.engine, schema, q, ov))
+			entries = append(entries, fmt.Sprintf(`{"name":%q,"path":%q,"engine":%q,"schema":%q,"queries":%s%s}`, p.name, p.name, p.engine, schema, q, ov))
 		}
 	}
 	if v2 {
